@@ -20,21 +20,21 @@ open VaxisModel.Model.TermKey VaxisModel.Model.TermMouse VaxisModel.Gen.Keys Vax
 
 /-- Constants of the root package as widgets/term refers to them (`vaxis.X`). -/
 def termConstEnv : Env :=
+  (VaxisModel.Gen.Mouse.buttons.map fun nv => ("vaxis." ++ nv.1, V.int (nv.2 : Nat))) ++
   (VaxisModel.Model.KeyBody.keyConstEnv.map fun nv =>
-    (if nv.1 = "unicode.MaxRune" then nv.1 else "vaxis." ++ nv.1, nv.2)) ++
-  (VaxisModel.Gen.Mouse.buttons.map fun nv => ("vaxis." ++ nv.1, V.int (nv.2 : Nat)))
+    (if nv.1 = "unicode.MaxRune" then nv.1 else "vaxis." ++ nv.1, nv.2))
 
-def strTable (t : List (Int × List Nat)) : V × List (List Int × V) :=
-  (.str [], t.map fun e => ([e.1], V.str (bytesStr e.2)))
+def strTable (t : List (Int × List Nat)) : MapTable :=
+  .strs (t.map fun e => ([e.1], bytesStr e.2))
 
-def termMaps : List (String × (V × List (List Int × V))) :=
+def termMaps : List (String × MapTable) :=
   [("keymap", strTable keymap),
    ("cursorKeysApplicationMode", strTable cursorKeysApplicationMode),
    ("cursorKeysNormalMode", strTable cursorKeysNormalMode),
    ("applicationKeymap", strTable applicationKeymap),
    ("numericKeymap", strTable numericKeymap),
-   ("xtermKeymap", (.struct [("number", .int 0), ("final", .int 0)],
-      xtermKeymap.map fun e => ([e.1], V.struct [("number", .int e.2.1), ("final", .int e.2.2)])))]
+   ("xtermKeymap", .structs [("number", xtermKeymap.map fun e => ([e.1], e.2.1)),
+                             ("final", xtermKeymap.map fun e => ([e.1], e.2.2))])]
 
 def ctx (u : Uni) (funcs : String → List V → Option (V × Str)) : Ctx where
   u := u
